@@ -1,8 +1,8 @@
-\* phase 2 leg A quick (native histograms): grid 0..5, <= 3 samples, histograms
+\* phase 2 leg A quick (native histograms): grid 0..4, <= 3 samples, histograms
 \* <<count, sum, bucket>> in {<<1,2,1>>, <<2,1,2>>, <<3,5,3>>} (growth, reset, sum moving against count),
 \* counter and gauge series, r1 = 2, r2 = 4, chunk counts {1,3} x {1,2}
 SPECIFICATION Spec
-CONSTANTS GridLen = 6
+CONSTANTS GridLen = 5
           MaxSamples = 3
           Vecs <- VecsDefault
           WithStale = FALSE
